@@ -99,7 +99,7 @@ def runCb (m : M) : M × List Ev :=
       (m', [.started inv m.now, .finished inv m.now] ++ evs)
     | .raise =>
       let (m', evs) := scheduleNext m
-      (m', [.started inv m.now, .logged inv, .finished inv m.now] ++ evs)
+      (m', [.started inv m.now, .finished inv m.now, .logged inv] ++ evs)
     | .coro => ({ m with inflight := m.inflight ++ [inv] }, [.started inv m.now])
 
 def step (m : M) : Op → M × List Ev
@@ -124,7 +124,7 @@ def step (m : M) : Op → M × List Ev
     | some inv =>
       let m := { m with inflight := m.inflight.eraseIdx idx }
       let (m', evs) := scheduleNext m
-      (m', (if ok then [] else [.logged inv]) ++ [.finished inv m.now] ++ evs)
+      (m', [.finished inv m.now] ++ (if ok then [] else [.logged inv]) ++ evs)
 
 def run (m : M) : List Op → M × List (List Ev)
   | [] => (m, [])
